@@ -177,3 +177,11 @@ def encodeChar (c : Char) : Bytes := String.utf8EncodeChar c
 def encodeChars (cs : List Char) : Bytes := cs.flatMap encodeChar
 
 end Kitoken.Utf8
+
+namespace Kitoken
+
+/-- `str::is_char_boundary` on valid UTF-8. -/
+def isBoundary (text : Bytes) (i : Nat) : Bool :=
+  i == 0 || i == text.length || (i < text.length && (text.getD i 0 &&& 0xC0) != 0x80)
+
+end Kitoken
